@@ -68,7 +68,7 @@ impl Input {
     }
 }
 
-const EXT: [u64; 3] = [7, 3, 900];
+const EXT: [u64; 3] = [0, 3, 900];
 
 fn prop_sets() -> Vec<Vec<(&'static str, PropertyValue)>> {
     vec![
@@ -326,7 +326,11 @@ fn run_input(inp: &Input, dir: &Path) -> (Option<(String, String)>, u64) {
         Ok(Err(e)) => return (Some(("reopen:bulk_db_does_not_open".into(), e.to_string())), cmp),
         Err(p) => return (Some(("reopen:bulk_db_open_panics".into(), p)), cmp),
     };
-    b = Db::open(&tb).expect("reopen");
+    b = match catch(|| Db::open(&tb)) {
+        Ok(Ok(d)) => d,
+        Ok(Err(e)) => return (Some(("reference:transactional_db_does_not_reopen".into(), e.to_string())), cmp),
+        Err(p) => return (Some(("reference:transactional_db_reopen_panics".into(), p)), cmp),
+    };
     stage!("reopen");
     // the same follow-up transaction on both
     let fa = follow_up(&a, inp);
@@ -348,14 +352,18 @@ fn run_input(inp: &Input, dir: &Path) -> (Option<(String, String)>, u64) {
         Ok(Err(e)) => return (Some(("reopen2:bulk_db_does_not_open".into(), e.to_string())), cmp),
         Err(p) => return (Some(("reopen2:bulk_db_open_panics".into(), p)), cmp),
     };
-    b = Db::open(&tb).expect("reopen");
+    b = match catch(|| Db::open(&tb)) {
+        Ok(Ok(d)) => d,
+        Ok(Err(e)) => return (Some(("reference:transactional_db_does_not_reopen".into(), e.to_string())), cmp),
+        Err(p) => return (Some(("reference:transactional_db_reopen_panics".into(), p)), cmp),
+    };
     stage!("reopen2");
     (None, cmp)
 }
 
 pub fn c30(tier: Tier) -> i32 {
     let rep = Report::new("C30", tier);
-    rep.rule("every input of two families: (1) 0..=3 nodes with fixed labels and every multiset of at most E relationships over all (start, type in {R,S}, end) triples incl. self-loops, with multiplicity up to 2 (parallel relationships); (2) two nodes x every combination of labels {A, B, R (also a relationship type)}, node property sets (Int, String, Float, Bool, List, Null, Map, DateTime, Blob, a 24 KiB multi-page String), relationship property sets and relationship type {R, A (also a label)} on four shapes (no relationship, one, a 2-cycle, self-loop + second type); external ids are deliberately not ascending (7, 3, 900). Each input is loaded by nervusdb::bulkload into one database and by ONE committed transaction (same order) into another; oracle at five stages (fresh, after reopen, after the same follow-up transaction on both, after compaction, after a second reopen): full dumps through every read interface are equal, and 22 queries (outgoing / incoming / undirected / typed / variable-length / OPTIONAL / properties / keys / pattern predicate) return equal row multisets or the same failure; non-trivial = inputs with at least one relationship or property");
+    rep.rule("every input of two families: (1) 0..=3 nodes with fixed labels and every multiset of at most E relationships over all (start, type in {R,S}, end) triples incl. self-loops, with multiplicity up to 2 (parallel relationships); (2) two nodes x every combination of labels {A, B, R (also a relationship type)}, node property sets (Int, String, Float, Bool, List, Null, Map, DateTime, Blob, a 24 KiB multi-page String), relationship property sets and relationship type {R, A (also a label)} on four shapes (no relationship, one, a 2-cycle, self-loop + second type); external ids are deliberately not ascending and include 0 (0, 3, 900). Each input is loaded by nervusdb::bulkload into one database and by ONE committed transaction (same order) into another; oracle at five stages (fresh, after reopen, after the same follow-up transaction on both, after compaction, after a second reopen): full dumps through every read interface are equal, and 22 queries (outgoing / incoming / undirected / typed / variable-length / OPTIONAL / properties / keys / pattern predicate) return equal row multisets or the same failure; non-trivial = inputs with at least one relationship or property");
     let e = tier.pick(2usize, 3);
     let mut inputs = shape_inputs(e);
     let n_shape = inputs.len();
